@@ -104,13 +104,13 @@ func (t *Term) String() string {
 			}
 		} else if t.Sort.Kind == 'I' {
 			if v := int64(t.Val); v < 0 {
-				s = fmt.Sprintf("(- %d)", -v)
+				s = fmt.Sprintf("(- %d)", uint64(-(v+1))+1)
 			} else {
 				s = fmt.Sprintf("%d", v)
 			}
 		} else if IntMode && t.Sort.Width == 64 {
 			if v := t.Signed(); v < 0 {
-				s = fmt.Sprintf("(- %d)", -v)
+				s = fmt.Sprintf("(- %d)", uint64(-(v+1))+1)
 			} else {
 				s = fmt.Sprintf("%d", v)
 			}
